@@ -93,14 +93,14 @@ def c12(c):
     c.assumptions += ["the round-trip theorems cover one uncompressed or (under the law 'reading the decompressor to its end gives the message') compressed message "
                       "written by write_message and fed, in any segmentation, to an idle receiver with MessageLengthLimit = 0 and ReadLimit = 0; several messages, "
                       "interleaved control frames and limits > 0 are decided by the differential run and the round-trip oracle on every run"]
-    _run(c, "C12", "12", 1500, 60000)
+    _run(c, "C12", "12", 1100, 60000)
 
 
 def c13(c):
     c.assumptions += ["rfc_close_code_ok is the list fixed in DESIGN.md (1000-1003, 1007-1011, 1015, 3000-4999); masking direction and minimal "
                       "length encoding are not part of the property's list and are not checked; RSV1 on control/continuation frames with "
                       "permessage-deflate negotiated is counted, not judged (RFC 6455 leaves it to the extension)"]
-    _run(c, "C13", "13", 12000, 400000)
+    _run(c, "C13", "13", 25000, 600000)
 
 
 def c15(c):
@@ -160,3 +160,5 @@ MANIFEST = {
              "generous one-sided test, not a theorem. Trusted: as C12.",
         design="4/C15, Appendix D"),
 }
+
+READY = True
